@@ -66,8 +66,12 @@ CvGetAction(cv) ==
 CvNextCoord(cv) ==
   [cv |-> [cv EXCEPT !.nc = IF cv.nc + 1 > CvKeyMax + 50 THEN CvKeyMax + 1 ELSE cv.nc + 1], c |-> cv.nc]
 
-\* src: chord.rs:537 get_active_chord
-CvActiveChord(ch, since, coord, relFound) ==
+\* src: chord.rs get_active_chord(cch, since, coord, released_key)
+\* rl = [f, k, old]: f = relevant_release_found, k = released_key (the key of that release; -1 = None).
+\* (fix 6fd250f) only the release of one of the chord's own keys marks a first-release chord released at once.
+\* rl.old (bug = "chv2_foreign_release"): the behaviour before the fix - any relevant release does.
+CvActiveChord(ch, since, coord, rl) ==
+  LET relFound == IF rl.old THEN rl.f ELSE rl.f /\ CvHas(ch.ks, rl.k) IN
   [coord |-> coord, rem |-> IF ch.first THEN {} ELSE CvSet(ch.ks), ks |-> CvSet(ch.ks), ac |-> ch.ac,
    st |-> IF relFound /\ ch.first THEN "UR" ELSE "U", delay |-> since]
 
@@ -112,12 +116,12 @@ CvDrainReleases(cv, dq) ==
      [cv |-> IF r.npress > CvSmolCap THEN CvPanic(cv1, "debug_assert:presses overflow") ELSE cv1, dq |-> r.dq]
 
 \* ---- process_presses (chord.rs:316-519) ------------------------------------------------
-\* first loop 319-332: returns [presses, rel]
+\* first loop 319-332: returns [presses, rel, rk] (rk = released_key, -1 = None)
 RECURSIVE CvScanPresses(_, _)
 CvScanPresses(q, presses) ==
-  IF q = <<>> THEN [presses |-> presses, rel |-> FALSE]
+  IF q = <<>> THEN [presses |-> presses, rel |-> FALSE, rk |-> 0 - 1]
   ELSE IF Head(q).p THEN CvScanPresses(Tail(q), Append(presses, Head(q).y))
-  ELSE IF CvHas(presses, Head(q).y) THEN [presses |-> presses, rel |-> TRUE]
+  ELSE IF CvHas(presses, Head(q).y) THEN [presses |-> presses, rel |-> TRUE, rk |-> Head(q).y]
   ELSE CvScanPresses(Tail(q), presses)
 
 CvEnabled(ch, layer) == ~CvHas(ch.dis, layer)
@@ -181,14 +185,17 @@ CvProcessPresses(cv, tbl, cign, layer, bug) ==
           IF possible = <<>> THEN [cv EXCEPT !.ign = cign]
           ELSE
             LET since == cv.q[1].s
+                rl == [f |-> sc.rel, k |-> sc.rk, old |-> (bug = "chv2_foreign_release")]
                 lp == CvPressLoop([cv |-> cv, acc |-> <<>>, cands |-> <<>>, brk |-> FALSE],
-                                  presses, possible, layer, since, sc.rel, cign)
+                                  presses, possible, layer, since, rl, cign)
                 cv1 == lp.cv
-                \* 462-510: runs also after an activation in the loop (the loop's `break` does not skip it)
-                cv2 == IF cv1.tuns = 0 \/ sc.rel
+                \* 462-510 (fix deba873): skipped when the loop above activated a chord
+                \* (`self.active_chords.len() == prev_active_chords_len`).
+                \* bug = "chv2_double_activation": the behaviour before the fix (the loop's `break` does not skip it).
+                cv2 == IF (cv1.tuns = 0 \/ sc.rel) /\ (Len(cv1.ach) = n0 \/ bug = "chv2_double_activation")
                        THEN LET f == CvFindExact(IF Len(lp.cands) >= CvSmolCap THEN possible ELSE lp.cands,
                                                  lp.acc, layer) IN
-                            IF f # <<>> THEN CvActivate(cv1, f[1], since, sc.rel) ELSE [cv1 EXCEPT !.ign = cign]
+                            IF f # <<>> THEN CvActivate(cv1, f[1], since, rl) ELSE [cv1 EXCEPT !.ign = cign]
                        ELSE cv1
                 \* "Clear presses from the queue if they were consumed by a chord" (fix e173bdb): only one press per
                 \* accumulated key - the first in the queue - is removed; a later press of the same key stays queued.
